@@ -2,7 +2,7 @@
 # applies every seeded change in turn, runs the quick check of its property, records the alarms in seeded/<id>/detected.txt
 cd /verif
 if [ -n "$(git -C /repo status --porcelain)" ]; then echo "REFUSE: /repo has uncommitted changes"; exit 2; fi
-for d in ${SEEDED_ONLY:-seeded/C??-?}; do
+for d in ${SEEDED_ONLY:-seeded/C??-[0-9]*}; do
   id=$(basename $d); P=${id%-*}
   git -C /repo apply /verif/$d/patch.diff || { echo "$id: patch does not apply"; continue; }
   GOVC_EVIDENCE_DIR=/tmp/govc-mutant-evidence ./check $P quick 2>&1 | grep -E "^VIOLATION|quick:" > $d/detected.txt
